@@ -323,4 +323,63 @@ theorem C10_versions_monotone (s : Sys) (op : Op) (hnt : op.isTamper = false) :
     · refine ⟨⟨fun _ he => ?_, fun _ => by omega⟩, by rw [a, b]⟩
       rw [he] at b; omega
 
+/-- After EVERY tamper-free history of API calls (no protocol assumed) the version inside each data file equals its
+    version file — so the "moves exactly when the content changes" clauses of `C10_versions_monotone` apply at every
+    reachable state — and the version files are at least what `create` wrote. -/
+theorem C10_versions_agree_after_any_history (host : Host) (spec : List (List JobId × Bool)) (brk : Bool)
+    (ops : List Op) (hnt : ∀ op ∈ ops, op.isTamper = false) :
+    (exec (create host spec brk) ops).disk.cfg.version = (exec (create host spec brk) ops).disk.cfgVer ∧
+    (exec (create host spec brk) ops).disk.js.version = (exec (create host spec brk) ops).disk.jsVer ∧
+    1 ≤ (exec (create host spec brk) ops).disk.cfgVer ∧ 1 ≤ (exec (create host spec brk) ops).disk.jsVer := by
+  have hC := Coherent.exec ops _ (Coherent.create host spec brk) hnt
+  refine ⟨hC.agreeCfg, hC.agreeJs, ?_, ?_⟩
+  · have : ∀ (ops : List Op) (s : Sys), (∀ op ∈ ops, op.isTamper = false) → s.disk.cfgVer ≤ (exec s ops).disk.cfgVer := by
+      intro ops
+      induction ops with
+      | nil => intro s _; exact Nat.le_refl _
+      | cons op ops ih =>
+        intro s h
+        exact Nat.le_trans (C10_versions_monotone s op (h op (List.mem_cons_self ..))).1
+          (ih _ (fun o ho => h o (List.mem_cons_of_mem _ ho)))
+    exact this ops (create host spec brk) hnt
+  · have : ∀ (ops : List Op) (s : Sys), (∀ op ∈ ops, op.isTamper = false) → s.disk.jsVer ≤ (exec s ops).disk.jsVer := by
+      intro ops
+      induction ops with
+      | nil => intro s _; exact Nat.le_refl _
+      | cons op ops ih =>
+        intro s h
+        exact Nat.le_trans (C10_versions_monotone s op (h op (List.mem_cons_self ..))).2.1
+          (ih _ (fun o ho => h o (List.mem_cons_of_mem _ ho)))
+    exact this ops (create host spec brk) hnt
+
+/-! ## non-vacuity -/
+
+/-- a protocol-respecting run with three handles on two hosts: refused promotions, a hand-over, updates -/
+example :
+    let ops : List Op :=
+      [.update 0 { submitted := [0], blocked := [(1, [0])], canceled := [], completed := [], hpcIds := [5], batchIdx := 2 },
+       .load 1 1 true true, .demote 0, .load 2 0 true true, .promote 1,
+       .update 2 { submitted := [], blocked := [], canceled := [], completed := [0], hpcIds := [], batchIdx := 2 },
+       .demote 2, .read]
+    ProtocolRun (Tracked.create 0 [([], false), ([0], false)] true) ops = true ∧
+    (run (create 0 [([], false), ([0], false)] true) ops).2 =
+      [.ok, .bool false, .ok, .bool true, .bool false, .ok, .ok, .ok] := by decide
+
+/-- the hypothesis of `C10_stale_rejected` is satisfiable: handle 0 after the hand-over above is stale, its update is
+    rejected, the marker appears and (with a lock library that never breaks stale markers) every later call times out -/
+example :
+    (run (create 0 [([], false)] false)
+      [.demote 0, .load 1 1 true true,
+       .update 0 { submitted := [0], blocked := [], canceled := [], completed := [], hpcIds := [5], batchIdx := 2 },
+       .breakMarker, .read, .demote 1]).2 =
+      [.ok, .bool true, .err .versionMismatch, .disabled, .err .lockTimeout, .err .lockTimeout] := by decide
+
+/-- … and with one that does (filelock 3.32.7) the submission continues -/
+example :
+    (run (create 0 [([], false)] true)
+      [.demote 0, .load 1 1 true true,
+       .update 0 { submitted := [0], blocked := [], canceled := [], completed := [], hpcIds := [5], batchIdx := 2 },
+       .breakMarker, .read, .demote 1]).2 =
+      [.ok, .bool true, .err .versionMismatch, .ok, .ok, .ok] := by decide
+
 end Jade.C10
